@@ -97,7 +97,7 @@ def _guard_check(ctx, R, fi, idname, flags, read_pred, sink_desc):
     guards = []
     for n in cfg.stmt_nodes():
         if n.kind == "test" and isinstance(n.ast, ast.If):
-            mb = mismatch_branch(ctx, fi, n.ast.test, idname, flags)
+            mb = mismatch_branch(ctx, fi, inline(n.ast.test, {k: v for k, v in env.items() if k not in datavars}), idname, flags)
             if not mb:
                 continue
             branch, hashed, need = mb
